@@ -57,7 +57,10 @@ int c_mlookahead(void *p)
 REQ_ES(p)
 __CPROVER_assigns()
 /* beyond the end of the input the lookahead is EOF (no read outside the token vector) */
-__CPROVER_ensures(__CPROVER_return_value == (POS >= NT ? TK_T_EOF : TOKS[POS].t)) /*@C02*/;
+__CPROVER_ensures(__CPROVER_return_value == (POS >= NT ? TK_T_EOF : TOKS[POS].t)) /*@C02*/
+/* reachability of the cases (each must FAIL) */
+__CPROVER_ensures(POS >= NT) /*@CANARY*/
+__CPROVER_ensures(POS < NT) /*@CANARY*/;
 
 _Bool c_mmatch(void *p, int expect)
 REQ_ES(p)
@@ -68,7 +71,12 @@ __CPROVER_ensures(__CPROVER_return_value == ((OLD(POS) >= NT ? TK_T_EOF : TOKS[O
 __CPROVER_ensures(NE == OLD(NE) + (__CPROVER_return_value ? 0 : 1)) /*@C02*/
 __CPROVER_ensures(__CPROVER_return_value || (ERRS[NE - 1].t == PE_MACRO_EXTRACT_EXPECT &&
                   ERRS[NE - 1].line == TOKS[OLD(POS) < NT ? OLD(POS) : NT - 1].line &&
-                  ERRS[NE - 1].file._id == TOKS[OLD(POS) < NT ? OLD(POS) : NT - 1].file._id)) /*@C02*/;
+                  ERRS[NE - 1].file._id == TOKS[OLD(POS) < NT ? OLD(POS) : NT - 1].file._id)) /*@C02*/
+/* reachability of the cases (each must FAIL) */
+__CPROVER_ensures(__CPROVER_return_value) /*@CANARY*/
+__CPROVER_ensures(!__CPROVER_return_value) /*@CANARY*/
+__CPROVER_ensures(OLD(POS) < NT) /*@CANARY*/
+__CPROVER_ensures(OLD(POS) >= NT) /*@CANARY*/;
 
 void c_mcopy(void *p)
 REQ_ES(p)
@@ -89,7 +97,10 @@ __CPROVER_assigns(g_es->encountered_errors._n, __CPROVER_object_whole(ERRS))
 /* a priority / insertion index that does not fit the word is rejected with a RANGE error ... */
 __CPROVER_ensures(g_num_val < INT_MAX || (NE == OLD(NE) + 1 && ERRS[NE - 1].t == PE_RANGE)) /*@C20,C02*/
 /* ... every other one is converted exactly and silently */
-__CPROVER_ensures(g_num_val >= INT_MAX || (__CPROVER_return_value == (int)g_num_val && NE == OLD(NE))) /*@C20*/;
+__CPROVER_ensures(g_num_val >= INT_MAX || (__CPROVER_return_value == (int)g_num_val && NE == OLD(NE))) /*@C20*/
+/* reachability of the cases (each must FAIL) */
+__CPROVER_ensures(g_num_val < INT_MAX) /*@CANARY*/
+__CPROVER_ensures(g_num_val >= INT_MAX) /*@CANARY*/;
 
 /* C02 (no out-of-range access when a replacement is built): an insertion index `$N` is range-checked at extraction time with the
  * value strToInt gives, but the token keeps its text and apply_macros converts it again with strToIntSilent - the two
